@@ -320,7 +320,10 @@ func canonicalKey(s string) string {
 
 // squash removes all OWS, lower-cases, and sorts comma-separated members: two values whose
 // squashed forms differ are DIFFERENT for sure (conservative "different" predicate).
-func squash(v string) string {
+func squash(v string) string { return squashFold(v, true) }
+
+// squashFold is squash with or without the folding of letter case.
+func squashFold(v string, fold bool) string {
 	parts := strings.Split(v, ",")
 	for i, p := range parts {
 		// byte-wise (ASCII case folding, SP / HTAB removed): strings.ToLower and strings.Map
@@ -331,7 +334,7 @@ func squash(v string) string {
 			switch {
 			case c == ' ' || c == '\t':
 				continue
-			case c >= 'A' && c <= 'Z':
+			case fold && c >= 'A' && c <= 'Z':
 				c += 'a' - 'A'
 			}
 			bs = append(bs, c)
@@ -433,6 +436,26 @@ func refusalDiffers(ja, jb string) bool {
 		}
 	}
 	return differs
+}
+
+// SurelyDifferentIn is SurelyDifferent for the values of one named field. For a field whose
+// values are opaque to a cache - an extension field (X-...), Cookie - letter case is part of the
+// value: "Abc" and "abc" are different values (only case normalisation that preserves the
+// meaning is among the equivalences the property lists, and nothing is known about the meaning
+// of such a field). Fields the cache's own table compares case-insensitively (Host, Referer,
+// User-Agent, Content-Type ...) and the negotiation fields are judged as before.
+func SurelyDifferentIn(field string, a, b []string) bool {
+	if SurelyDifferent(a, b) {
+		return true
+	}
+	if !(strings.HasPrefix(field, "X-") || field == "Cookie") {
+		return false
+	}
+	ja, jb := strings.Join(a, ","), strings.Join(b, ",")
+	if strings.Contains(ja, ";") || strings.Contains(jb, ";") {
+		return false
+	}
+	return squashFold(ja, false) != squashFold(jb, false)
 }
 
 // OnlyRefusals reports whether every member of the (non-empty) value carries the weight 0:
